@@ -144,6 +144,15 @@ type state struct {
 	n      numbering
 }
 
+// fromUintptr reports whether T is uintptr, a type whose underlying type is
+// uintptr, or a type parameter whose type set includes such a type.
+func fromUintptr(T types.Type) bool {
+	return typeutil.Any(T, func(term *types.Term) bool {
+		b, ok := term.Type().Underlying().(*types.Basic)
+		return ok && b.Kind() == types.Uintptr
+	})
+}
+
 func (s *state) get(v ir.Value) ValueNilness {
 	if !typeutil.IsPointerLike(v.Type()) {
 		// All non-pointer-like types are always {_ NeverNil}.
@@ -384,7 +393,7 @@ start:
 
 			switch v := instr.(type) {
 			case *ir.Convert:
-				if b, ok := v.X.Type().Underlying().(*types.Basic); ok && b.Kind() == types.Uintptr {
+				if fromUintptr(v.X.Type()) {
 					// unsafe.Pointer(uintptr(0)) is nil; nothing is known
 					// about pointers made from integers.
 					s.set(v, ValueNilness{MaybeNil, MaybeNil})
@@ -503,7 +512,12 @@ start:
 			case *ir.ChangeType:
 				s.set(v, s.get(v.X))
 			case *ir.MultiConvert:
-				s.set(v, s.get(v.X))
+				if fromUintptr(v.X.Type()) {
+					// As for Convert.
+					s.set(v, ValueNilness{MaybeNil, MaybeNil})
+				} else {
+					s.set(v, s.get(v.X))
+				}
 			case *ir.Load:
 				if _, ok := v.X.(*ir.Global); ok {
 					s.setOuter(v, MaybeNilGlobal)
